@@ -122,8 +122,11 @@ func Family(full bool) []FamDoc {
 	}
 	// (2) containers x numbering x extras on a 3-page nested document
 	for _, container := range []string{"classic", "xrefstream", "objstream", "indirect-lengths", "indirect-lengths-zero"} {
-		for _, numbering := range []string{"dense", "gaps", "dangling-free-ref", "dangling-free-ref-gen1"} {
+		for _, numbering := range []string{"dense", "gaps", "dangling-free-ref", "dangling-free-ref-gen1", "dangling-free-ref-twice"} {
 			for _, extra := range []string{"none", "attachment", "outline", "filters", "no-info", "hazard-names", "shared-indirect-attrs"} {
+				if numbering == "dangling-free-ref-twice" && (extra != "none" || strings.HasPrefix(container, "indirect-lengths")) {
+					continue
+				}
 				if strings.HasPrefix(container, "indirect-lengths") && !(extra == "none" || extra == "filters") {
 					continue
 				}
@@ -138,7 +141,7 @@ func Family(full bool) []FamDoc {
 				case "gaps":
 					d.SkipNumbers(3)
 					d.Add("<</Unused true>>")
-				case "dangling-free-ref", "dangling-free-ref-gen1":
+				case "dangling-free-ref", "dangling-free-ref-gen1", "dangling-free-ref-twice":
 					// two free objects; a live object references the second one (generation 0 reference); in the
 					// gen1 variant the free entries carry generation 1, as after a real deletion
 					if numbering == "dangling-free-ref-gen1" {
@@ -150,6 +153,16 @@ func Family(full bool) []FamDoc {
 					d.Add("<</Unused true>>")
 					cat := d.objs[d.Root]
 					cat.body = strings.TrimSuffix(cat.body, ">>") + fmt.Sprintf("/Lang %s>>", Ref(free2))
+					if numbering == "dangling-free-ref-twice" {
+						// the same free object is referenced a second time, from below a page
+						for _, nr := range sortedKeys(d.objs) {
+							o := d.objs[nr]
+							if strings.Contains(o.body, "/Type/Page/") {
+								o.body = strings.TrimSuffix(o.body, ">>") + fmt.Sprintf("/Annots[%s]>>", Ref(free2))
+								break
+							}
+						}
+					}
 				}
 				switch extra {
 				case "attachment":
